@@ -748,9 +748,9 @@ pub fn run_render(ctx: &Ctx, rep: &Report) {
             }
         }
         // k ASCII characters, then one character of 2, 3 or 4 bytes, then a few more: a multi-byte character across
-        // every byte offset from 50 to 140 (buffers cut at a byte count)
+        // every byte offset from 0 to 140 (buffers cut at a byte count, whatever the count is)
         for wide in ['\u{e9}', '\u{20ac}', '\u{1f600}'] {
-            for k in 50usize..=140 {
+            for k in 0usize..=140 {
                 let mut s = St2 { total: 3, core: St { n: 0, sel: Some(0), quit: false, search: false, sort: 3, asc: false, query: String::new(), width: 0 } };
                 let mut evs = vec![Event::Key(KeyEvent::new(KeyCode::Char('/'), KeyModifiers::NONE))];
                 evs.extend(std::iter::repeat(Event::Key(KeyEvent::new(KeyCode::Char('a'), KeyModifiers::NONE))).take(k));
@@ -806,7 +806,7 @@ pub fn run_render(ctx: &Ctx, rep: &Report) {
                 }
             }
         }
-        rep.part("very long search queries (63..=300 characters; a multi-byte character at every byte offset 50..=140; queries that outgrow the line at six widths with a multi-byte character near their start), a draw after every key", c, json!({}));
+        rep.part("very long search queries (63..=300 characters; a multi-byte character at every byte offset 0..=140; queries that outgrow the line at six widths with a multi-byte character near their start), a draw after every key", c, json!({}));
         total_trans += c;
         total_states += c;
     }
